@@ -8,6 +8,8 @@
                                     headers=headers, verify=verify_ssl)
           except httpx.InvalidURL as exc:
               raise IntrospectionError(f"Invalid remote schema url: {url}") from exc
+          except httpx.TransportError as exc:                                   # since 23ffd85 (finding C19-F2)
+              raise IntrospectionError(f"Failure of remote schema introspection: {exc}") from exc
           if not response.is_success:
               raise IntrospectionError("Failure of remote schema introspection. HTTP status code: ...")
           try: response_json = response.json()
@@ -50,16 +52,33 @@ import AriadneModel.Generated.Tables
 namespace Ariadne.Introspect
 open Ariadne
 
-/-- What `httpx.post(...)` did: raised (class name of the exception) or returned a response, of
-    which the code looks at the status and at `response.json()` (`none` = it raised ValueError). -/
+/-- A Python exception as an `except` clause sees it: the qualified names (`module.qualname`) of
+    `type(e).__mro__`, most specific class first, and `str(e)`.  `except C` catches `e` iff `C` is in
+    the MRO, so user-defined subclasses and multiple inheritance need no special case. -/
+structure Exc where
+  mro : List String
+  msg : String
+  deriving Repr
+
+/-- `isinstance(e, cls)` -/
+def Exc.isa (e : Exc) (cls : String) : Bool := e.mro.contains cls
+
+def clsInvalidURL : String := "httpx.InvalidURL"
+def clsTransportError : String := "httpx.TransportError"
+/-- httpx: "base class for all exceptions that may occur when issuing a `.request()`" -/
+def clsRequestError : String := "httpx.RequestError"
+
+/-- What `httpx.post(...)` did: raised, or returned a response, of which the code looks at the
+    status and at `response.json()` (`none` = it raised ValueError). -/
 inductive PostResult where
-  | raised (exc : String)
+  | raised (e : Exc)
   | response (status : Nat) (body : Option J)
   deriving Repr
 
-/-- The five messages of `IntrospectionError` in `introspect_remote_schema`. -/
+/-- The messages of `IntrospectionError` in `introspect_remote_schema`. -/
 inductive ErrKind where
   | invalidUrl
+  | transport (msg : String)     -- f"Failure of remote schema introspection: {exc}"
   | httpStatus (status : Nat)
   | notJson
   | badFormat
@@ -69,7 +88,7 @@ inductive ErrKind where
 
 inductive Outcome where
   | introspectionError (k : ErrKind)
-  | other (exc : String)                     -- any other exception escaping (httpx.ConnectError, ...)
+  | escaped (e : Exc)                        -- the exception of `httpx.post` escapes as it is
   | data (kvs : List (String × J))           -- the returned `data` dict
   deriving Repr
 
@@ -77,7 +96,10 @@ inductive Outcome where
 def isSuccess (status : Nat) : Bool := 200 ≤ status && status ≤ 299
 
 def introspect : PostResult → Outcome
-  | .raised exc => if exc = "InvalidURL" then .introspectionError .invalidUrl else .other exc
+  | .raised e =>
+    if e.isa clsInvalidURL then .introspectionError .invalidUrl               -- first clause wins
+    else if e.isa clsTransportError then .introspectionError (.transport e.msg)
+    else .escaped e
   | .response status body =>
     if !isSuccess status then .introspectionError (.httpStatus status)
     else
@@ -95,10 +117,25 @@ def introspect : PostResult → Outcome
             | _ => .introspectionError .badData
       | some _ => .introspectionError .badFormat
 
+/-- The exceptions of `httpx.post` that the property lists as introspection failures: `InvalidURL` (bad URL)
+    and the `RequestError` family (httpx: every exception "that may occur when issuing a .request()");
+    `TransportError` is named separately although httpx derives it from `RequestError`, so that the
+    claim does not rest on that. Anything else is outside the property. -/
+def listedFailureExc (e : Exc) : Bool :=
+  e.isa clsInvalidURL || e.isa clsTransportError || e.isa clsRequestError
+
+/-- Trigger of finding C19-F6 (twin: `harness/c19.py trig_request_exc_untyped`): `httpx.post` raised an
+    `httpx.RequestError` that is neither an `InvalidURL` nor a `TransportError` - what is left of the
+    trigger of the repaired finding F2, which was "raised anything that is not an InvalidURL". -/
+def trigRequestExcUntyped : PostResult → Bool
+  | .raised e => !e.isa clsInvalidURL && !e.isa clsTransportError && e.isa clsRequestError
+  | .response _ _ => false
+
 /-- Outcome of `get_graphql_schema_from_url`; `σ` is whatever `build_client_schema` returns. -/
 inductive UrlOutcome (σ : Type) where
   | introspectionError (k : ErrKind)
-  | other (exc : String)
+  | escaped (e : Exc)                        -- an exception of `httpx.post` that no clause catches
+  | other (exc : String)                     -- an exception of `build_client_schema` (class name)
   | schema (s : σ)
 
 /-- `build_client_schema(introspect_remote_schema(...), assume_valid=True)`: an exception of the
@@ -106,11 +143,18 @@ inductive UrlOutcome (σ : Type) where
 def schemaFromUrl {σ : Type} (build : List (String × J) → Except String σ) (p : PostResult) : UrlOutcome σ :=
   match introspect p with
   | .introspectionError k => .introspectionError k
-  | .other exc => .other exc
+  | .escaped e => .escaped e
   | .data d =>
     match build d with
     | .ok s => .schema s
     | .error exc => .other exc
+
+/-- The decision chain as it was BEFORE commit 23ffd85 (only `except httpx.InvalidURL`): kept to state, in
+    Properties/C19.lean, that the recorded witnesses of finding C19-F2 violate the property on it - i.e. why a
+    return of that defect must be caught.  Not used by the driver. -/
+def introspectBefore23ffd85 : PostResult → Outcome
+  | .raised e => if e.isa clsInvalidURL then .introspectionError .invalidUrl else .escaped e
+  | p@(.response _ _) => introspect p
 
 /-! ### which source, and what is sent -/
 
